@@ -315,6 +315,17 @@ func clampedNonNeg(v ssa.Value, depth int) (bool, string) {
 			}
 			return false, ""
 		}
+		for _, mono := range []string{"Round", "Floor", "Ceil", "Trunc", "RoundToEven", "Sqrt", "Abs"} {
+			if an.IsFunc(t, "math", mono) {
+				if mono == "Abs" {
+					return true, "math.Abs(·)"
+				}
+				if ok, why := clampedNonNeg(x.Call.Args[0], depth); ok {
+					return true, "math." + mono + "(" + why + ")"
+				}
+				return false, ""
+			}
+		}
 		if t != nil && t.Blocks != nil && core.InModule(t) && depth > 0 && t.Signature.Results().Len() == 1 {
 			rets := an.Returns(t)
 			for _, ret := range rets {
